@@ -216,7 +216,7 @@ class AAuthClient:
 		req.headers["Host"] = self.host
 		req.headers["Accept"] = "*/*"
 		
-		response = await http.request(self.host, req, self.context)
+		response = await self.request_callback(self.host, req, self.context)
 		response.raise_if_error()
 		
 		time = int(response.headers["X-NINTENDO-UNIXTIME"])
